@@ -1246,3 +1246,20 @@ func sameValue(a, b ssa.Value) bool {
 	}
 	return false
 }
+
+// RangeValueOf matches the value variable of `for _, v := range m` where the
+// ranged-over map satisfies vm.
+func RangeValueOf(vm VM) VM {
+	return func(v ssa.Value) bool {
+		e, ok := strip(v).(*ssa.Extract)
+		if !ok || e.Index != 2 {
+			return false
+		}
+		nx, ok := e.Tuple.(*ssa.Next)
+		if !ok {
+			return false
+		}
+		r, ok := nx.Iter.(*ssa.Range)
+		return ok && vm(r.X)
+	}
+}
